@@ -606,6 +606,25 @@ func (r *Runner) Step(s Step) *Failure {
 			return nil
 		}
 		seq := 1 + int64(s.A*8+s.B)%(di.ServerSeq-1)
+		if s.C == 8 {
+			// an unusual input of the admin API: a serverSeq beyond the head.
+			// Whatever the answer (an error, or the head), it must not change
+			// what later builds return.
+			beyond := di.ServerSeq + 1 + int64(s.B%3)
+			r.log("admin: view history at serverSeq %d, beyond the head %d", beyond, di.ServerSeq)
+			r.Ev["histview_beyond_head"]++
+			got, err := documents.GetDocumentByServerSeq(r.ctx, r.S.BE, r.Proj, di.Key, beyond)
+			if err == nil {
+				refs, f := r.logPrefixContents(di, di.ServerSeq)
+				if f != nil {
+					return f
+				}
+				if want := refs[di.ServerSeq]; got.Marshal() != want {
+					return failf("HISTVIEWDIFF", "document at serverSeq %d (beyond the head %d) is not the head:\n got %s\nwant %s", beyond, di.ServerSeq, got.Marshal(), want)
+				}
+			}
+			return nil
+		}
 		r.log("admin: view history at serverSeq %d (head %d)", seq, di.ServerSeq)
 		r.Ev["histview"]++
 		got, err := documents.GetDocumentByServerSeq(r.ctx, r.S.BE, r.Proj, di.Key, seq)
